@@ -91,6 +91,9 @@ static void run_sym(vh::Trace& tr, int tier) {
   sym_config(tr, D(16, 2, 1, 1, 1, 0, 0, 3, 0.1F), G(9, 9, 3, 3.F, 3.F, 2, 0), true, id);     // intrinsic tilt
   sym_config(tr, D(16, 2, 1, 1, 1, 0, 0, 3), G(9, 9, 3, 3.F, 3.F, 2, 0, 3.F, 0.F), true, id); // shifted x origin
   sym_config(tr, D(16, 2, 1, 1, 1, 0, 0, 3, 0.F, "BlocksOnCylindrical"), G(9, 9, 3, 3.F, 3.F, 2, 0), false, id);
+  // block geometry with several crystals per axial block: the shift_z algebra (per bin)
+  { DataCfg d = D(8, 6, 1, 5, 1, 0, 0, 3, 0.F, "BlocksOnCylindrical"); d.cpb = 2; sym_config(tr, d, G(9, 9, 11, 3.F, 3.F, 2, 0), true, id); }
+  { DataCfg d = D(8, 6, 1, 5, 1, 0, 0, 3, 0.F, "BlocksOnCylindrical"); d.cpb = 3; d.axial_gap = 1.F; sym_config(tr, d, G(9, 9, 11, 3.F, 3.F, 2, 0), false, id); }
   if (tier > 0) {
     sym_config(tr, D(32, 4, 1, 3, 1, 0, 0, 9), G(21, 21, 7, 2.F, 2.F, 2, 0), true, id);
     sym_config(tr, D(24, 3, 1, 1, 1, 0, 0, 8), G(12, 12, 9, 2.5F, 2.5F, 4, 2), true, id);     // reduced max ring difference
@@ -163,7 +166,8 @@ struct Recorder {
           const float s = pdi->get_s(b), ds = pdi->get_sampling_in_s(b);
           tr.emit(vh::Json("Ref").num("gid", (long)k + 1).arr("b", bin_list(b)).raw("row", row_json(row))
                       .num("sx", vh::fx(s / vs.x(), 12)).num("sy", vh::fx(s / vs.y(), 12))
-                      .num("dsx", vh::fx(ds / vs.x(), 12)).num("dsy", vh::fx(ds / vs.y(), 12)));
+                      .num("dsx", vh::fx(ds / vs.x(), 12)).num("dsy", vh::fx(ds / vs.y(), 12))
+                      .arr("ep", lor_end_points(*pdi, *im, b, gs.o)));
           lines[bin_list(b)] = tr.lines - cfg_line;
         }
       }
@@ -242,19 +246,34 @@ struct Recorder {
     options(*source, f.geoms[src - 1].o);
     source->set_up(pdis[src - 1], ims[src - 1]);
     const DataSymmetriesForBins_PET_CartesianGrid* sym = dynamic_cast<const DataSymmetriesForBins_PET_CartesianGrid*>(source->get_symmetries_ptr());
+    const std::vector<int> header_sw{ sym->using_symmetry_90degrees_min_phi(), sym->using_symmetry_180degrees_min_phi(),
+                                      sym->using_symmetry_swap_segment(), sym->using_symmetry_swap_s(), sym->using_symmetry_shift_z() };
     const bool written = ProjMatrixByBinFromFile::write_to_file(prefix, *source, pdis[src - 1], *ims[src - 1]) == Succeeded::yes;
     source.reset();
     Obj o; o.impl = "FromFile"; o.cache_on = cache_on; o.basic_only = basic_only;
     shared_ptr<ProjMatrixByBinFromFile> ff(new ProjMatrixByBinFromFile);
     std::string hdr = prefix; hdr += ".hpm";
     const bool parsed = !vh::threw([&] { if (!ff->parse(hdr.c_str())) throw std::runtime_error("parse"); });
+    bool repaired = false;
+    if (!parsed) {
+      // the header as written could not be read back; so that the rest of the class can still be exercised the header
+      // is given the name under which the writer actually stored the template projection data (<name>.hs) and parsed again
+      std::ifstream in(hdr.c_str()); std::stringstream buf; buf << in.rdbuf(); in.close();
+      std::string h = buf.str();
+      const std::string key = "_template_proj_data\n";
+      const size_t pos = h.find(key);
+      if (pos != std::string::npos) h.replace(pos, key.size(), "_template_proj_data.hs\n");
+      std::ofstream out(hdr.c_str()); out << h; out.close();
+      ff.reset(new ProjMatrixByBinFromFile);
+      repaired = !vh::threw([&] { if (!ff->parse(hdr.c_str())) throw std::runtime_error("parse"); });
+    }
     ff->enable_cache(cache_on);
     ff->store_only_basic_bins_in_cache(basic_only);
     o.m = ff;
     tr.emit(vh::Json("New").str("impl", "FromFile").arr("req", sw_list(req))
-                .arr("sw", std::vector<int>{ sym->using_symmetry_90degrees_min_phi(), sym->using_symmetry_180degrees_min_phi(),
-                                             sym->using_symmetry_swap_segment(), sym->using_symmetry_swap_s(), sym->using_symmetry_shift_z() })
-                .boolean("cacheOn", cache_on).boolean("basicOnly", basic_only).num("src", src).boolean("written", written).boolean("parsed", parsed));
+                .arr("sw", header_sw)
+                .boolean("cacheOn", cache_on).boolean("basicOnly", basic_only).num("src", src).boolean("written", written).boolean("parsed", parsed).boolean("repaired", repaired));
+    if (!parsed && !repaired) return;
     if (!set_up(o, f, src)) return;
     std::vector<Bin> recent;
     const std::vector<Bin>& bl = bins[src - 1];
